@@ -139,12 +139,17 @@ impl<'input, E> Iterator for Matcher<'input, '_, E> {
             self.text = remaining;
             self.consumed = end_offset;
 
+            // A zero-length match makes no progress: `text` and `consumed`
+            // are unchanged, so the same empty match would be found again on
+            // every following call. Report it as an invalid token, for
+            // ordinary terminals just as for skipped patterns.
+            if longest_match == 0 {
+                return Some(Err(ParseError::InvalidToken {
+                    location: start_offset,
+                }));
+            }
+
             if self.skip_vec[index] {
-                if longest_match == 0 {
-                    return Some(Err(ParseError::InvalidToken {
-                        location: start_offset,
-                    }));
-                }
                 continue;
             }
 
